@@ -489,6 +489,24 @@ fn run_one(ls: &mut Linters, it: &Item, out: &mut Buf) {
         out.count(&format!("batches_{}", b.rule), 1);
         convs.push((before, after));
     }
+    // ---- the loop threads the tree as the model says: the next batch starts from the previous
+    // result iff that result's text was new, else from the unchanged tree; the run ends there too
+    {
+        let mut seen: HashSet<String> = HashSet::new();
+        seen.insert(t0.raw());
+        let mut cur: &T = &t0;
+        for (k, b) in rec.batches.iter().enumerate() {
+            let (before, after) = &convs[k];
+            let ex = || json!({"input": input, "batch": k, "rule": b.rule, "pass": b.pass});
+            out.hyp("loop_threads_tree", "blocking", before == cur, ex());
+            let fresh_text = seen.insert(after.raw());
+            out.hyp("acceptance_is_unseen_text", "blocking", b.accepted == fresh_text, ex());
+            if fresh_text {
+                cur = after;
+            }
+        }
+        out.hyp("loop_threads_tree", "blocking", &tf == cur, json!({"input": input, "batch": "end"}));
+    }
     if it.emit_cases {
         for (k, b) in rec.batches.iter().enumerate() {
             let (before, after) = &convs[k];
@@ -502,7 +520,7 @@ fn run_one(ls: &mut Linters, it: &Item, out: &mut Buf) {
             let sample = json!({"input": input, "rule": b.rule, "pass": b.pass, "n_fixes": b.fixes.len(), "fixes": b.fixes.iter().take(8).map(fix_j).collect::<Vec<_>>()});
             out.case("batch", &format!("{}:{}", it.cls, b.rule), kinds.len() >= 2 || b.fixes.len() >= 3, args, exp, sample);
         }
-        if t0.n_leaves() <= MAX_RUN_LEAVES && !rec.batches.is_empty() && rec.batches.len() <= 10 {
+        if t0.n_leaves() <= MAX_RUN_LEAVES && !rec.batches.is_empty() && rec.batches.len() <= 30 {
             let args = g_tuple(&[t0.gs(), g_list(rec.batches.iter().map(|b| g_list(b.fixes.iter().map(fix_g))))]);
             let exp = g_tuple(&[tf.gs(), g_bool(all_ok)]);
             let n_rej = rec.batches.iter().filter(|b| !b.accepted).count();
@@ -710,6 +728,17 @@ pub const FUSION_PROBES: &[(&str, &str)] = &[
     ("mysql", "SELECT 1 - -2 , `a` . `b` FROM t\n"),
 ];
 
+/// minimised earlier failures that need a particular layout configuration
+pub const CFG_PROBES: &[(&str, &str, &str)] = &[
+    // LT05 moves the trailing comment inside the function name node; LT01 (touch:inline) then
+    // stripped the line break after it and the comment swallowed the code
+    ("ansi", "operator-trailing", "SELECT a\n   ||     to_varchar(date_part(hour, ts), 'xxxxxxxxxxxxxxxxxxxxxxxxxxxxxxxxxxxxxxxxxxxxxxxxxxxxxxxxxxxxx')  -- Concatenate labels and column values to output meaningful filenames.\nFROM t\n"),
+    ("ansi", "operator-trailing", "SELECT a\n   ||     to_varchar(date_part(hour, ts), 'xxxxxxxxxxxxxxxxxxxxxxxxxxxxxxxxxxxxxxxxxxxxxxxxxxxxxxxxxxxxx')  -- Concatenate labels and column values to output meaningful filenames\nFROM t\n"),
+    ("postgres", "default", "drop procedure delete_actor, update_actor CASCADE;\n"),
+    ("postgres", "maxlen20-after", "drop procedure delete_actor,\nupdate_actor\nCASCADE;\n"),
+    ("snowflake", "default", "CREATE OR REPLACE EXTERNAL FUNCTION f(a VARCHAR) RETURNS VARIANT API_INTEGRATION = x REQUEST_TRANSLATOR = db.s.fn RESPONSE_TRANSLATOR = db.s.fn2 AS 'https://x/y';\n"),
+];
+
 pub fn main(args: &Args) {
     silence_panics();
     let mut out = Out::new(&args.out);
@@ -735,6 +764,9 @@ pub fn main(args: &Args) {
             for cfg in LAYOUT_CFGS.iter().take(if args.thorough() { LAYOUT_CFGS.len() } else { 4 }) {
                 items.push(Item { cls: "probe", dialect: d.to_string(), cfg, sql: sql.to_string(), emit_cases: true, synth: 0 });
             }
+        }
+        for (d, c, sql) in CFG_PROBES {
+            items.push(Item { cls: "probe", dialect: d.to_string(), cfg: layout_cfg_by_name(c), sql: sql.to_string(), emit_cases: true, synth: 0 });
         }
         let corpus = corpus();
         // per-thread lexers are needed for the perturbations: build them here, single-threaded, with throwaway linters
